@@ -197,6 +197,8 @@ def check_scte35_payload(ctx, sched, k, pt, data, inp):
     pts = (pt * 90000 // sched['timescale']) % (1 << 33)
     bdur = sched['duration'] * 90000 // sched['timescale']
     PENDING.append(([5, model_sched(sched), pt], [pts, bdur], {'sched': sched, 'pt': pt}))
+    # the payload bytes themselves against Scte35Model.event_signal (program_id default 1620)
+    PENDING.append(([6, model_sched(sched), 1620, k, pt], list(data), {'sched': sched, 'k': k, 'pt': pt}))
     if (not kw.get('crc_valid') or si.get('splice_event_id') != k or (si.get('splice_time') or {}).get('pts') != pts
             or (si.get('break_duration') or {}).get('duration') != bdur):
         ctx.violation('SCTE-35 payload of event %d: crc_valid=%r id=%r pts=%r break=%r, schedule gives id=%d pts=%d break=%d'
